@@ -234,7 +234,7 @@ type FieldRef struct {
 
 func (f FieldRef) String() string {
 	if f.Struct != nil {
-		return f.Struct.Obj().Name() + "." + f.Name
+		return StructName(f.Struct) + "." + f.Name
 	}
 	return "struct." + f.Name
 }
@@ -281,7 +281,7 @@ func IsFieldAddr(v ssa.Value, tname, fname string) bool {
 		return false
 	}
 	r := FieldAddrRef(fa)
-	return r.Name == fname && (tname == "" || (r.Struct != nil && r.Struct.Obj().Name() == tname))
+	return r.Name == fname && (tname == "" || (r.Struct != nil && StructName(r.Struct) == tname))
 }
 
 // LoadOfField: v is `*(&x.f)` or `x.f` (value field).
@@ -293,7 +293,7 @@ func IsFieldLoad(v ssa.Value, tname, fname string) bool {
 		}
 	case *ssa.Field:
 		r := FieldValRef(x)
-		return r.Name == fname && (tname == "" || (r.Struct != nil && r.Struct.Obj().Name() == tname))
+		return r.Name == fname && (tname == "" || (r.Struct != nil && StructName(r.Struct) == tname))
 	}
 	return false
 }
@@ -321,7 +321,7 @@ func (p *Prog) FieldStores(pkgRel, tname, fname string) []FieldStore {
 				return
 			}
 			r := FieldAddrRef(fa)
-			if r.Name != fname || r.Struct == nil || r.Struct.Obj().Name() != tname || r.Struct.Obj().Pkg() == nil || r.Struct.Obj().Pkg().Path() != full {
+			if r.Name != fname || r.Struct == nil || StructName(r.Struct) != tname || r.Struct.Obj().Pkg() == nil || r.Struct.Obj().Pkg().Path() != full {
 				return
 			}
 			out = append(out, FieldStore{fn, st, fa, st.Val})
@@ -772,7 +772,7 @@ func Origins(v ssa.Value, o OriginOpts) []ssa.Value {
 				if o.FieldsModuleWide && o.Prog != nil {
 					r := FieldAddrRef(a)
 					if r.Struct != nil && r.Struct.Obj().Pkg() != nil && IsModule(r.Struct.Obj().Pkg()) {
-						sts := o.Prog.FieldStores(r.Struct.Obj().Pkg().Path(), r.Struct.Obj().Name(), r.Name)
+						sts := o.Prog.FieldStores(r.Struct.Obj().Pkg().Path(), StructName(r.Struct), r.Name)
 						if len(sts) > 0 {
 							for _, s := range sts {
 								walk(s.Val, depth, ext)
